@@ -299,6 +299,22 @@ def run(ctx):
             ck.ob("C16-R4", fd.path, "--dev-file:passed-over-only-if-unresolvable∨not-listed∨excluded∨(only-if-keyboard∧¬is_keyboard)", bool(reason),
                   detail=None if reason else "an argument is dropped with found %s excluded %s only-if-keyboard %s is_keyboard %s" % (found, excl, skip, isk))
     ck.floor("C16-R4", "dev-file-skip-paths", n_skip, 2)
+    # ... and nothing is selected any other way: every Ok the function returns is the list that this loop filled (an early
+    # `return Ok(devices.clone())` "when there is nothing to filter on" would let unlisted -- virtual -- devices through)
+    push_loops = [h for h in sorted(fd.loops()) if any(e.kind == "call" and method_name(e.a) == "push" and len(e.b) == 2 and " str" in fd.blocks[e.blk]["term"]["callee"].get("args", "")
+                                                      for p in mir.walk_loop_only(fd, h) for e in p.events)]
+    accs = {mir.strip(e.b[0]) for h in push_loops for p in mir.walk_loop_only(fd, h) for e in p.events
+            if e.kind == "call" and method_name(e.a) == "push" and len(e.b) == 2 and " str" in fd.blocks[e.blk]["term"]["callee"].get("args", "")}
+    n_ok = 0
+    for p in mir.walk_function(fd):
+        r = p.outcome[1] if p.outcome[0] == "return" else None
+        if not (isinstance(r, tuple) and r[0] == "agg" and r[2] == "Ok"):
+            continue
+        n_ok += 1
+        through = any(e.kind == "loop" and e.a in push_loops for e in p.events)
+        ck.ob("C16-R4", fd.path, "every-Ok-result-is-the-list-filled-by-the-selection-loop", through and mir.strip(r[3][0]) in accs,
+              detail=None if (through and mir.strip(r[3][0]) in accs) else "a path returns Ok(%s) without running the selection loop" % show(r[3][0])[:60])
+    ck.floor("C16-R4", "dev-file-ok-returns", n_ok, 1)
     hm = ctx.hir("remapping_loop::do_remapping_loop_multiple_devices")
     ok = len(list(hirq.calls(hm["body"], path="remapping_loop::filter_devices_verbose"))) == 1
     ck.ob("C16-R4", "remapping_loop::do_remapping_loop_multiple_devices", "--dev-file-arguments-pass-through-filter_devices_verbose", ok)
